@@ -4,31 +4,34 @@ from . import rotate
 
 
 def spec(tier, seed):
+    # measured: one hunk, N=4, stated line from the matrix: 80-105 s, 2.3 GB.  A symbolic stated line or a second
+    # hunk (two applies x two splices) exceeds 12 GB, so the stated line is enumerated by the driver instead.
     one = []
     for sh in ((1, 1, 1, 1), (0, 1, 1, 1), (1, 1, 1, 0), (2, 1, 1, 1), (1, 1, 0, 2), (0, 1, 1, 0), (0, 0, 1, 0), (2, 0, 1, 2), (1, 1, 1, 2)):
-        for f in (0, 1):
-            for d in ("fwd", "rev"):
-                one.append((4, [sh], [None], f, d))
+        for line in range(0, 5):
+            for f in (0, 1):
+                for d in ("fwd", "rev"):
+                    one.append((4, [sh], [line], f, d))
     two = []
-    for sh in ([(0, 1, 1, 1), (1, 1, 0, 0)], [(1, 1, 0, 1), (1, 0, 1, 1)], [(1, 1, 1, 0), (0, 1, 1, 1)]):
-        for l1 in (0, 1):
-            for l2 in (1, 2, 3):
-                for f in (0, 1):
-                    two.append((3, sh, [l1, l2], f, "fwd"))
+    for sh in ([(0, 1, 0, 0), (1, 1, 0, 0)], [(0, 1, 1, 0), (0, 1, 0, 1)]):
+        for l2 in (1, 2):
+            two.append((2, sh, [0, l2], 0, "fwd"))
     if tier == "quick":
-        ch = rotate(one, seed, 6) + rotate(two, seed, 4)
+        ch = rotate(one, seed, 12)
+        ch2 = []
     else:
-        ch = one + two
+        ch, ch2 = one, two
     inst = []
     for (n, sh, ls, f, d) in ch:
-        inst.append(apply_inst("c20", n, sh, ls, f, d, ["mono", "lowest"], "C20 F vs F+1 on equal copies; C02b lowest level first",
-                               mem_gb=8, must_cover=["all hunks applied"]))
+        inst.append(apply_inst("c20", n, sh, ls, f, d, ["mono", "lowest"], "C20 F vs F+1 on equal copies; C02b lowest level first", mem_gb=6))
+    for (n, sh, ls, f, d) in ch2:
+        inst.append(apply_inst("c20", n, sh, ls, f, d, ["mono"], "C20 two hunks, N=2", mem_gb=14, timeout=2400))
     return {
         "instances": inst,
         "level": "model_checking",
         "functions": ["TextFilePatch::apply", "apply_modify (fuzz-level loop 0..=min(F, max_useable_fuzz))", "Hunk::max_useable_fuzz", "try_apply_hunk", "HunkView::new"],
-        "symbolic": "every line byte; the stated line of single-hunk instances",
-        "bounds": {"file_lines_N": "4 (one hunk), 3 (two hunks)", "fuzz_limits": "F in {0,1} against F+1", "context": "<= 2 per side"},
+        "symbolic": "every file-line and hunk-line byte (all equality patterns); stated lines are enumerated by the instance matrix",
+        "bounds": {"file_lines_N": "4 (one hunk, every stated line 0..4 from the matrix), 2 (two hunks, thorough tier)", "fuzz_limits": "F in {0,1} against F+1", "context": "<= 2 per side"},
         "assumptions": ["VVec stand-in for content vectors; replay on the real Vec", "1-byte lines", "--fuzz string -> usize is getopts parsing: outside"],
         "outside": ["fuzz limits above 2", "tree/metadata equality on disk"],
         "explanation": "the same file patch is applied at F and F+1 on equal copies: ok at F implies ok at F+1 with identical per-hunk (line, offset, fuzz) and identical content; "
